@@ -426,7 +426,8 @@ def status_class(status, info):
     return classify_detail(status, (info.get('detail') or '') + ' ' + (info.get('new_err') or ''))
 
 
-def run_case(idx, rng, tier, ctx):
+def plan_case(idx, rng, tier):
+    """generate the case and choose the variants (no compilation)"""
     flags = case_flags(rng, idx)
     gen = ArrGen(rng, flags)
     case = gen.generate()
@@ -447,6 +448,13 @@ def run_case(idx, rng, tier, ctx):
     else:
         variants = ['py', 'py-inv'] if rng.random() < 0.5 else [rng.choice(['py', 'py-inv'])]
     vopts = {v: variant_opts(v, rng) for v in variants}
+    return flags, gen, case, hostile_stmt, variants, vopts
+
+
+def run_case(idx, rng, tier, ctx):
+    flags, gen, case, hostile_stmt, variants, vopts = plan_case(idx, rng, tier)
+    profile = flags['profile']
+    hostile = hostile_stmt.hostile if hostile_stmt else None
     src = case.kernel()
     res = {'sig': sighash([src, variants, vopts]), 'nontrivial': False, 'violations': [], 'inconclusive': None,
            'features': sorted(gen.features | {'profile-' + profile} | ({'hostile-' + hostile} if hostile else set())),
